@@ -11,7 +11,9 @@ from mc.props.c05 import fill
 import miros.thread_safe_attributes as tsa
 
 PID = "C27"
-STMTS = {"read": "x = o.a", "set5": "o.a = 5", "set9": "o.a = 9", "inc": "o.a += 1", "dec": "o.a -= 1", "inc3": "o.a += 3"}
+STMTS = {"read": "x = o.a", "set5": "o.a = 5", "set9": "o.a = 9", "inc": "o.a += 1", "dec": "o.a -= 1", "inc3": "o.a += 3",
+         # a second instance of the same class (its value starts at 7): the descriptor is shared, the values are not
+         "read2": "x = o2.a", "set2_8": "o2.a = 8", "inc2": "o2.a += 1"}
 _mod = [None]
 
 
@@ -21,7 +23,7 @@ def statements_module():
         atexit.register(shutil.rmtree, d, True)
         src = []
         for k, line in STMTS.items():
-            src += ["def s_%s(o):" % k, "  x = None", "  " + line, "  return x", ""]
+            src += ["def s_%s(o, o2):" % k, "  x = None", "  " + line, "  return x", ""]
         path = os.path.join(d, "c27_statements.py")
         open(path, "w").write("\n".join(src))
         spec = importlib.util.spec_from_file_location("c27_statements", path)
@@ -31,8 +33,10 @@ def statements_module():
     return _mod[0]
 
 
-def serial_results(threads, init=0):
-    """final values of all serial orders of the statements (threads keep their own order)"""
+def serial_results(threads, init=0, which=1, reads=None):
+    """final values of all serial orders of the statements on instance `which` (threads keep their own order); if
+    `reads` is a set, every value the instance holds at some point of some serial order is added to it"""
+    threads = [[st for st in t if (("2" in st.split("_")[0][-1:]) == (which == 2))] for t in threads]
     seqs = set()
 
     def merge(rest, acc):
@@ -46,15 +50,19 @@ def serial_results(threads, init=0):
     out = set()
     for s in seqs:
         v = init
+        if reads is not None:
+            reads.add(v)
         for st in s:
             if st.startswith("set"):
-                v = int(st[3:])
-            elif st == "inc":
+                v = int(st.split("_")[1]) if "_" in st else int(st[3:])
+            elif st in ("inc", "inc2"):
                 v += 1
             elif st == "dec":
                 v -= 1
             elif st == "inc3":
                 v += 3
+            if reads is not None:
+                reads.add(v)
         out.add(v)
     return out
 
@@ -78,8 +86,11 @@ class Attr:
         m = statements_module()
         K = tsa.MetaThreadSafeAttributes("K27", (), {"_attributes": ["a"]})   # descriptor lock is created under the stand-ins
         o = K()
+        o2 = K()
+        o2.a = 7
         errors = {}
         finished = []
+        reads = []
         desc = K.__dict__["a"]
         s.fingerprint = lambda: (o.__dict__.get(getattr(desc, "_key", ""), getattr(desc, "_value", None)),
                                  getattr(desc._lock, "held_by", lambda: None)())
@@ -88,7 +99,9 @@ class Attr:
         def worker(i, stmts):
             for st in stmts:
                 try:
-                    getattr(m, "s_" + st)(o)
+                    r = getattr(m, "s_" + st)(o, o2)
+                    if st.startswith("read"):
+                        reads.append((st, r))
                 except Exception as e:  # noqa
                     errors.setdefault(i, []).append("%s in %r: %s" % (type(e).__name__, STMTS[st], e))
             finished.append(i)
@@ -98,10 +111,16 @@ class Attr:
         s.settle()
         lock = desc._lock
         held = lock.held_by() if hasattr(lock, "held_by") else None
-        final = o.__dict__.get(getattr(desc, "_key", ""), getattr(desc, "_value", None))
+        if held is None:
+            # nobody holds the lock: ask the attribute itself what the instances hold now
+            final, final2r = m.s_read(o, o2), m.s_read2(o, o2)
+        else:
+            final = o.__dict__.get(getattr(desc, "_key", ""), getattr(desc, "_value", None))
+            final2r = None
         if final is None:
             final = 0
-        return {"final": final, "errors": errors, "finished": sorted(finished), "lock_held_by": held}
+        final2 = final2r if final2r is not None else o2.__dict__.get(getattr(desc, "_key", ""), getattr(desc, "_value", None))
+        return {"final": final, "final2": final2, "reads": reads, "errors": errors, "finished": sorted(finished), "lock_held_by": held}
 
     def on_abort(self, s, p):
         return {"threads": [x for x in s.snapshot if not x[2]]}
@@ -119,6 +138,18 @@ class Attr:
         ok = serial_results(p["threads"])
         if not o["errors"] and o["final"] not in ok:
             out.append(("C27/not-serialisable", "statements %r ended with a=%r; serial executions give %r" % (p["threads"], o["final"], sorted(ok))))
+        ok2 = serial_results(p["threads"], init=7, which=2)
+        if not o["errors"] and o["final2"] not in ok2:
+            out.append(("C27/other-instance", "statements %r left the second instance with a=%r; serial executions give %r" % (
+                p["threads"], o["final2"], sorted(ok2))))
+        poss1, poss2 = set(), set()
+        serial_results(p["threads"], reads=poss1)
+        serial_results(p["threads"], init=7, which=2, reads=poss2)
+        for st, r in o["reads"]:
+            if r not in (poss2 if st == "read2" else poss1):
+                out.append(("C27/read-value/%s" % ("other-instance" if st == "read2" else "same-instance"),
+                            "statements %r: %r returned %r, the instance only ever holds %r" % (
+                                p["threads"], STMTS[st], r, sorted(poss2 if st == "read2" else poss1))))
         if o["lock_held_by"] is not None:
             out.append(("C27/lock-left-held", "after all threads finished the lock is still held by thread %r" % o["lock_held_by"]))
         return out
@@ -132,6 +163,10 @@ def params(tier):
             continue
         ps.append({"threads": [[a], [b]]})
     ps.append({"threads": [["inc", "read"], ["set5", "dec"]]})
+    # two instances of one class used from two threads
+    ps.append({"threads": [["read"], ["read2"]]})
+    ps.append({"threads": [["read", "inc"], ["inc2", "read2"]]})
+    ps.append({"threads": [["set5", "read"], ["set2_8", "read2"]]})
     ps.append({"threads": [["inc", "inc"], ["dec", "set9"]]})
     if tier != "quick":
         ps.append({"threads": [["inc"], ["dec"], ["inc3"]]})
